@@ -40,7 +40,9 @@
     a key the file always sets.
 Open known findings (generators steer around them only while they are listed in known-findings.json; witnesses
 kf_wbsyntax, kf_wbescape): the write-back understands only `key=value` lines and writes no escapes.
-C18-read-fatal (witness kf_vanish, PENDING below): the library's parser terminates the process when the file is not there."""
+Found by the second strengthening and fixed (C18-read-fatal, 61ee00b; witness kf_vanish): the library's parser terminated
+the process (log.Fatal) when the file was not there -- vanished between a reload's stat and the read, or missing at
+SetValues."""
 import copy, json, os, re
 from concurrent.futures import ThreadPoolExecutor
 import vf
@@ -57,16 +59,6 @@ ASIS = [  # (cfg, invariant TLC must refute, what golib did)
     ("MC_FileConfig_alt_gonesplit.cfg", "NoTornState", "a file that disappeared: map emptied in one critical section, defaults filled in in a second one"),
     ("MC_FileConfig_alt_envempty.cfg", "VisibleThroughGetters", "environment fallback when the map's value is empty instead of when the key is absent"),
 ]
-
-# A defect the widened histories exposed on the tree as it is (the file vanishing between a reload's stat and the
-# parser's read terminates the process).  Until known-findings.json says otherwise (an entry with this id, open or
-# fixed) it is treated as an OPEN known finding: its witness is re-judged on every run (KNOWN-FINDING line) and the
-# generators steer around exactly that signature; once the entry says "fixed" the generators impose it.
-PENDING = dict(
-    id="C18-read-fatal", property="C18", status="open",
-    what="DefaultFileParser.Read/Write load the file with properties.MustLoadFile, whose failure handler is log.Fatal: a configuration file that vanishes between reload's stat and the read (an editor that unlinks and re-creates it), that is missing when SetValues is called, or that the parser rejects terminates the whole process; e.g. file 'a=1\\nb=2\\n' loaded, file replaced by 'a=2\\nb=2\\nc=3\\n', the poll's stat sees the change, the file is unlinked, the parser reads: exit status 1 (kf_vanish/0)",
-    witness=dict(driver="c18", gen="kf_vanish", case=0))
-
 
 def sensitivity(run):
     """each former design of golib must be refuted by the model: the invariants are not vacuous"""
@@ -223,9 +215,6 @@ def _corrupt_after(e):
 
 def body(run):
     th = run.thorough()
-    # (VERIF_C18_READ_FATAL_FIXED=1: judge a tree that carries the repair before known-findings.json records it)
-    if not any(k.get("id") == PENDING["id"] for k in run.kf) and not os.environ.get("VERIF_C18_READ_FATAL_FIXED"):
-        run.kf.append(dict(PENDING))
 
     # the design-level runs do not depend on the driver: they run beside it (one TLC at a time)
     def design():
@@ -276,7 +265,7 @@ def traces(run):
         "keys that name a variable of the environment the check itself was started in are not generated (the histories set, change and unset variables of their own, named like keys that are absent, present and present-but-empty in the file, and the trace records them: event Env, Reset.penv); values containing ${...} expansions and files the properties parser rejects are not generated",
         "a file that disappears after it was loaded resets the configuration to the library's defaults (what the public ApplyDefault() puts into an empty configuration; recorded once per history) and the observers are NOT told: that is what the code does on purpose and the property, which speaks of the file's key=value pairs, is silent about it; what is required there is that no getter sees a map that is neither the one before nor the defaults",
         "observers are added before the constructor, between polls and -- in the reloads taken apart -- after the stat and after the parse, never from inside an observer's callback (a Go map written while it is iterated may or may not show the new entry); one notification round must call, once per registered name, the observer registered under it when the round runs",
-        "while C18-read-fatal is open no history lets the file vanish between a reload's stat and the parser's read and no write-back is asked for while the file is away (the witness kf_vanish does both, in a child process); once it is recorded as fixed the generators ilv / edit / wb impose both (events RlParseFail, RlAbort, SetValuesGone)",
+        "the file vanishing between a reload's stat and the parser's read (the parser fails, the poll ends with the map as it was, the next poll finds the file missing: events RlParseFail, RlAbort) and write-backs while the file is away (SetValuesGone: nothing is written) are imposed in-process; on a tree whose parser terminates the process there (C18-read-fatal before 61ee00b) the harness dies with it: machinery failure, and the witness kf_vanish (child process) shows the death as an event without an action",
         "AtomicOnDisk is judged at every system-call boundary of the recorded write-back (strace, successful calls on the configuration directory) and, for a write call on the inode the name refers to, additionally with the write cut after its first byte, in the middle and before its last byte; page-cache/journal behaviour below the system-call interface (e.g. a rename reaching the disk before the data when fsync is omitted) is not modelled",
         "concurrent getters: each observation carries the interval of reloads it overlapped (atomic counters read before and after the call); it must equal the value in one of those versions; a Go runtime abort of the child is an event without an action",
     ]
